@@ -25,7 +25,7 @@ from zorg.service.compiler._file_compiler import ErrorManager, ZorgFileCompiler
 from zorg.service.swog import _executor as ex
 
 KNOWN = set(x for x in os.environ.get("XH_KNOWN", "").split(",") if x)
-IDX = [i for i, s in enumerate(ALL_SPECS) if s.name.startswith(("core-", "layout-", "multi-", "first-"))]
+IDX = [i for i, s in enumerate(ALL_SPECS) if s.name.startswith(("core-", "layout-", "multi-", "first-", "second-"))]
 SPECS = [ALL_SPECS[i] for i in IDX]
 ORDERS = [(OrderByType.NONE,), (OrderByType.ALPHA,), (OrderByType.NOTE_TYPE, OrderByType.PRIORITY),
           (OrderByType.CREATE_DATE,), (OrderByType.MODIFY_DATE, OrderByType.ALPHA)]
